@@ -235,9 +235,9 @@ func c13Epochs(thorough bool) []int64 {
 			}
 		}
 	}
-	step := int64(86400*3653 + 12345)
+	step := int64(86400*37 + 12345)
 	if thorough {
-		step = 86400*37 + 12345
+		step = 86400 + 1 // every calendar day of the years 1..9999, the second of the day drifting by one per day
 	}
 	for e := int64(-62135596800); e <= 253402300799; e += step {
 		add(e)
@@ -310,7 +310,11 @@ func c13Run(c *engine.Ctx) {
 	// separators that overlap themselves: every string of length <= 6 over {a, b, é} by every separator of length 1..3
 	sigma := []string{"a", "b", "é"}
 	words := []string{""}
-	for l, prev := 1, []string{""}; l <= 6; l++ {
+	maxLen := 6
+	if !c.Quick() {
+		maxLen = 8
+	}
+	for l, prev := 1, []string{""}; l <= maxLen; l++ {
 		var next []string
 		for _, p := range prev {
 			for _, x := range sigma {
@@ -353,7 +357,7 @@ func c13Run(c *engine.Ctx) {
 	c.Sample(map[string]any{"law": "split($s)|join($s) for every non-empty $s", "strings": len(strs), "overlapping": "every string of length <= 6 over {a, b, é} by every separator of length 1..3; pieces compared with a leftmost non-overlapping scan"})
 
 	c.Sub("dates")
-	ep := c13Epochs(true)
+	ep := c13Epochs(!c.Quick())
 	for i, e := range ep {
 		if !c.MineIdx(i) {
 			continue
@@ -439,7 +443,7 @@ func init() {
 	engine.Register(&engine.Check{
 		ID:    "C13",
 		Level: "exploration",
-		Rule: "every value of the builtin universe extended with objects over empty/multi-byte/escape-needing keys, empty containers at every position and strings over the C12 byte alphabet x 15 inverse-pair laws, each evaluated through the public API as a jq program returning (lhs, rhs) and compared with the harness's own structural equality (gojq's == is not trusted); split(s)|join(s) for every (string, non-empty separator) pair of the universe and for every string of length <= 6 over {a, b, é} by every separator of length 1..3 (self-overlapping separators; pieces compared with a leftmost non-overlapping scan); todate|fromdate, gmtime|mktime (and two mixed compositions) on every epoch of a boundary set (+-1 s around day/month/leap/year/century boundaries of ~50 years between 1 and 9999, +-10^k, int32/uint32 limits, a regular grid over the whole range) in three number representations; tostring|tonumber and tojson|fromjson on the C10 integer set in every representation and on the float classes. Every case is distinct by construction.",
+		Rule: "every value of the builtin universe extended with objects over empty/multi-byte/escape-needing keys, empty containers at every position and strings over the C12 byte alphabet x 15 inverse-pair laws, each evaluated through the public API as a jq program returning (lhs, rhs) and compared with the harness's own structural equality (gojq's == is not trusted); split(s)|join(s) for every (string, non-empty separator) pair of the universe and for every string of length <= 6 (thorough 8) over {a, b, é} by every separator of length 1..3 (self-overlapping separators; pieces compared with a leftmost non-overlapping scan); todate|fromdate, gmtime|mktime (and two mixed compositions) on every epoch of a boundary set (+-1 s around day/month/leap/year/century boundaries of ~50 years between 1 and 9999, +-10^k, int32/uint32 limits, a regular grid over the whole range: every 37 days, thorough every calendar day with a drifting second of the day) in three number representations; tostring|tonumber and tojson|fromjson on the C10 integer set in every representation and on the float classes. Every case is distinct by construction.",
 		Assume:         []string{"domains are those of the statement (valid UTF-8 strings for explode/implode and @uri, finite numbers for tostring|tonumber, whole seconds within years 1-9999 for dates)"},
 		Run:            c13Run,
 		Replay:         c13Replay,
